@@ -168,10 +168,13 @@ func (b *Builder) Handler(hs *HSpec, sig string) layer4.NextHandler {
 		}
 		return l4tee.VerifNew(br, b.E.Log)
 	case "subroute":
-		h := &l4subroute.Handler{Routes: b.RouteList(hs.Sub, sig), MatchingTimeout: caddy.Duration(hs.Sub.Timeout)}
-		if h.MatchingTimeout <= 0 {
-			h.MatchingTimeout = caddy.Duration(layer4.MatchingTimeoutDefault)
+		// the real Provision runs on an empty route list (defaults such as the matching timeout
+		// are the shipped code's business); the harness routes are set afterwards
+		h := &l4subroute.Handler{MatchingTimeout: caddy.Duration(hs.Sub.Timeout)}
+		if err := h.Provision(b.E.Ctx); err != nil {
+			panic(err)
 		}
+		h.Routes = b.RouteList(hs.Sub, sig)
 		h.VerifSetLogger(b.E.Log)
 		return h
 	case "pp":
